@@ -1716,6 +1716,14 @@ fn replay(r: &Value) -> ! {
             res.attempts, res.init_combos, res.fin_combos, res.covered, res.rounds_hist
         );
         found = res.causes;
+    } else if r["part"] == "hash-sync" {
+        let depth = r["depth"].as_u64().unwrap_or(0) as usize;
+        let (ha, hb) = (r["ha"].as_str().unwrap_or(""), r["hb"].as_str().unwrap_or(""));
+        let pre = r["pre"].as_u64().unwrap_or(0) as usize;
+        println!("node 0 runs {ha:?}, node 1 runs {hb:?}, one-sided delivery {pre}, tree depth {depth}");
+        for v in hash_sync_case(depth, ha, hb, pre).0 {
+            found.entry(v.sig).or_insert(v.detail);
+        }
     } else {
         let depth = r["depth"].as_u64().unwrap_or(0) as usize;
         let (ca, cb) = (content_from_json(&r["a"]), content_from_json(&r["b"]));
@@ -1778,6 +1786,95 @@ fn assignments(n: usize, base: usize) -> Vec<Vec<usize>> {
         out = next;
     }
     out
+}
+
+// ------------------------------------------------------------------------------------------------
+// (c) sync of hash values after a one-sided delivery
+// ------------------------------------------------------------------------------------------------
+
+/// What a node does to key "h" before the exchange (through its real ShardReplicaState).
+const HOPS: &[&str] = &["-", "hset f", "hset g", "hset f; hdel f", "hset f; hset g", "set", "set; del"];
+
+fn apply_hop(sim: &mut MultiNodeSimulation, node: usize, hop: &str) {
+    let val = SDS::from_str(if node == 0 { "a" } else { "b" });
+    for step in hop.split("; ") {
+        let st = &mut sim.nodes[node].replica_state;
+        match step {
+            "-" => {}
+            "hset f" => {
+                st.record_hash_write("h".to_string(), vec![("f".to_string(), val.clone())]);
+            }
+            "hset g" => {
+                st.record_hash_write("h".to_string(), vec![("g".to_string(), val.clone())]);
+            }
+            "hdel f" => {
+                st.record_hash_delete("h".to_string(), vec!["f".to_string()]);
+            }
+            "set" => {
+                st.record_write("h".to_string(), val.clone(), None);
+            }
+            "del" => {
+                st.record_delete("h".to_string());
+            }
+            other => panic!("unknown hop {other}"),
+        }
+    }
+}
+
+/// Returns (violations, evaluated). `pre`: 0 nothing delivered, 1 node1's deltas reached node0 (node0's were lost),
+/// 2 the reverse. Then ONE digest-driven exchange with a limit that cannot truncate.
+fn hash_sync_case(depth: usize, ha: &str, hb: &str, pre: usize) -> (Vec<Viol>, bool) {
+    let mut sim = MultiNodeSimulation::new(2, 0);
+    for n in 0..2 {
+        sim.nodes[n].anti_entropy.config.max_keys_per_sync = 1000;
+        sim.nodes[n].anti_entropy.config.merkle_tree_depth = depth;
+    }
+    apply_hop(&mut sim, 0, ha);
+    apply_hop(&mut sim, 1, hb);
+    let (d0, d1) = (sim.nodes[0].drain_deltas(), sim.nodes[1].drain_deltas());
+    match pre {
+        1 => sim.nodes[0].apply_remote_deltas(d1),
+        2 => sim.nodes[1].apply_remote_deltas(d0),
+        _ => {}
+    }
+    let prior0 = sim.nodes[0].replica_state.replicated_keys.get("h").cloned();
+    let prior1 = sim.nodes[1].replica_state.replicated_keys.get("h").cloned();
+    let (da, db) = (sim.nodes[0].generate_digest(), sim.nodes[1].generate_digest());
+    let scenario = format!(
+        "depth {depth}: node0 [{ha}] node1 [{hb}] on key h; before the exchange {}; prior node0 = {} prior node1 = {}",
+        ["nothing was delivered", "node1's deltas reached node0, node0's were lost", "node0's deltas reached node1, node1's were lost"][pre],
+        prior0.as_ref().map(canon_value).unwrap_or_else(|| "-".into()),
+        prior1.as_ref().map(canon_value).unwrap_or_else(|| "-".into())
+    );
+    let replay = json!({"part": "hash-sync", "depth": depth, "ha": ha, "hb": hb, "pre": pre});
+    let mut out = Vec::new();
+    let equal_prior = prior0.as_ref().map(canon_value) == prior1.as_ref().map(canon_value);
+    if !equal_prior && !da.differs_from(&db) {
+        out.push(Viol { sig: "hash-sync false in-sync: prior states differ but digests agree".into(), detail: scenario.clone(), replay: replay.clone() });
+        return (out, true);
+    }
+    if equal_prior {
+        return (out, false);
+    }
+    sim.run_anti_entropy_sync(0, 1);
+    // both must now hold a merge of the two prior values (either merge order is accepted)
+    let merges: Vec<String> = match (&prior0, &prior1) {
+        (Some(a), Some(b)) => vec![canon_value(&a.merge(b)), canon_value(&b.merge(a))],
+        (Some(a), None) | (None, Some(a)) => vec![canon_value(a)],
+        (None, None) => vec![],
+    };
+    for n in 0..2 {
+        let got = sim.nodes[n].replica_state.replicated_keys.get("h").map(canon_value).unwrap_or_else(|| "-".into());
+        if !merges.contains(&got) {
+            out.push(Viol {
+                sig: "hash-sync one exchange leaves a side unmerged".into(),
+                detail: format!("{scenario}; after one exchange node{n} holds {got}, the merge of the prior values is {}", merges.join(" or ")),
+                replay: replay.clone(),
+            });
+            break;
+        }
+    }
+    (out, true)
 }
 
 fn main() {
@@ -1978,6 +2075,23 @@ fn main() {
     shuffle(&mut scens, args.seed);
     let t1 = rep.elapsed_s();
     let sres = par::par_map(&scens, |_, s| run_scenario(&cfgs[s.cfg], &s.ha, &s.hb, s.limit));
+    // ---- (c) hash values after a one-sided delivery
+    let hash_items: Vec<(usize, usize, usize, usize)> = [0usize, 8]
+        .iter()
+        .flat_map(|d| (0..HOPS.len()).flat_map(move |a| (0..HOPS.len()).flat_map(move |b| (0..3usize).map(move |p| (*d, a, b, p)))))
+        .collect();
+    let hres = par::par_map(&hash_items, |_, (d, a, b, p)| hash_sync_case(*d, HOPS[*a], HOPS[*b], *p));
+    let hash_sync_evaluated = hres.iter().filter(|r| r.1).count() as u64;
+    {
+        let mut seen = BTreeSet::new();
+        for (vs, _) in &hres {
+            for v in vs {
+                if seen.insert(v.sig.clone()) {
+                    rep.violation(v.sig.clone(), v.detail.clone(), v.replay.clone());
+                }
+            }
+        }
+    }
     let t_sync = rep.elapsed_s() - t1;
     let mut sync_runs = 0u64;
     let mut sync_nontrivial = 0u64;
@@ -2090,5 +2204,8 @@ fn main() {
         "sync order enumeration: initial iteration-order combinations are covered exactly; final per-bucket order combinations of equal final states are covered exactly when max_keys_per_sync cannot truncate; when it truncates, the selected keys correlate with the orders, the reachable set is not known a priori, and a scenario is closed once >= 48 equal-state runs showed no new combination during the last 24 (count reported); per-scenario counts can therefore vary minimally between runs, signatures do not".to_string(),
         "sync: two nodes, SET / SET EX / DEL on 3 keys, no gossip, no concurrent writes during the sync rounds; only the replicated state (not the executor keyspace) is compared".to_string(),
     ];
+    let mut coverage = coverage;
+    coverage["hash_sync_after_one_sided_delivery"] = json!({"cases": hash_items.len(), "cases_with_a_divergent_pair_exchanged": hash_sync_evaluated,
+        "rule": "key h: each node does one of [nothing, HSET f, HSET g, HSET f + HDEL f, HSET f + HSET g, SET, SET + DEL] through its real ShardReplicaState; before the exchange nothing / only node1's deltas / only node0's deltas were delivered; merkle depth 0 and 8; then ONE run_anti_entropy_sync with a non-truncating limit: both sides must hold a merge of the two prior values"});
     rep.finish(coverage, assumptions);
 }
